@@ -19,6 +19,11 @@ func init() {
 }
 
 func lRecovery(maxRetries int64) lifecyclev1.ErrRecoveryCfg {
+	if !verifSymbolic() {
+		// real time in the native replay: wide enough that a stop request issued
+		// right after a failure lands inside the back-off wait
+		return lifecyclev1.ErrRecoveryCfg{MinDelay: 60 * time.Millisecond, MaxDelay: 120 * time.Millisecond, BackoffFactor: 2, MaxRetries: maxRetries, MaxRetriesWindow: 300 * time.Millisecond}
+	}
 	return lifecyclev1.ErrRecoveryCfg{MinDelay: 1000, MaxDelay: 2000, BackoffFactor: 2, MaxRetries: maxRetries, MaxRetriesWindow: 5000}
 }
 
@@ -269,25 +274,29 @@ func VerifLifecycleUserStopVsFailure() {
 		<-served
 	}
 	stopErr := svc.Stop(ctx, "pl", false)
+	w.mu.Lock()
+	atStop := len(w.statuses)
+	w.mu.Unlock()
 	_ = svc.WaitPipeline("pl")
 	// let any recovery timer run its course (virtual time under the engine)
 	if verifSymbolic() {
 		time.Sleep(time.Minute)
 	} else {
-		time.Sleep(200 * time.Millisecond)
+		time.Sleep(800 * time.Millisecond)
 	}
 	w.mu.Lock()
 	statuses := append([]pipeline.Status(nil), w.statuses...)
 	w.mu.Unlock()
-	running := 0
-	for _, s := range statuses {
+	// a (re)start that happened before the stop request was accepted is fine;
+	// none may follow it
+	restartedAfterStop := false
+	for _, s := range statuses[atStop:] {
 		if s == pipeline.StatusRunning {
-			running++
+			restartedAfterStop = true
 		}
 	}
-	_ = running
 	if stopErr == nil {
-		verifAssert(running == 1, "c10-user-stopped-pipeline-restarted")
+		verifAssert(!restartedAfterStop, "c10-user-stopped-pipeline-restarted")
 		last := w.lastStatus()
 		verifAssert(last == pipeline.StatusUserStopped || last == pipeline.StatusDegraded, "c10-status-after-user-stop")
 		verifCover("stopped")
